@@ -30,6 +30,37 @@ func (r *Runner) dirGate(ch chan Event, want string) (Event, bool) {
 	return e, ok
 }
 
+// queuedRelease: storeLock has just been released by ProcessBlockPut; a ProcessBlockRelease that
+// woke up meanwhile (g2.wake) takes it and arrives at its state write.
+func (r *Runner) queuedRelease() {
+	if !r.g2queued || r.Failed || r.drained {
+		return
+	}
+	r.g2queued = false
+	if b, ok := r.expect(r.St.G2Ev, "sw-begin"); ok {
+		r.swBegun(2, b)
+	}
+}
+
+// AwaitSrcFor waits at most d for a call-log entry `m` at or after position from.
+func (s *Store) AwaitSrcFor(from int, m string, d time.Duration) bool {
+	deadline := time.Now().Add(d)
+	for {
+		s.srcMu.Lock()
+		for _, x := range s.srcLog[min(from, len(s.srcLog)):] {
+			if x == m {
+				s.srcMu.Unlock()
+				return true
+			}
+		}
+		s.srcMu.Unlock()
+		if time.Now().After(deadline) {
+			return false
+		}
+		time.Sleep(20 * time.Microsecond)
+	}
+}
+
 // Drained reports whether the runner gave up following the syncer step by step (see drain).
 func (r *Runner) Drained() bool { return r.drained }
 
@@ -60,7 +91,7 @@ func (r *Runner) drain(why string, stray *Event) {
 			p.tryResume(nil)
 		}
 	}
-	r.g1park, r.swPark, r.g2retry, r.swOwner, r.g1queued = nil, nil, nil, 0, false
+	r.g1park, r.swPark, r.g2retry, r.swOwner, r.g1queued, r.g2queued = nil, nil, nil, 0, false, false
 	finished := false
 	quiet := GateTimeout
 	if quiet > 3*time.Second {
